@@ -186,7 +186,22 @@ pub fn run(ctx: &mut Ctx) {
                 let mut pts = vec![];
                 c.preorder(&mut pts);
                 let floats: Vec<(usize, u32)> = pts.iter().enumerate().filter_map(|(i, p)| if let SItem::Float(b) = p { Some((i, *b)) } else { None }).collect();
-                if !floats.is_empty() && r.bool() {
+                // same TEXT, different KIND: an instruction atom turned into a name spelled the same (or the
+                // reverse) prints identically and is a different item
+                let texty: Vec<(usize, SItem)> = pts
+                    .iter()
+                    .enumerate()
+                    .filter_map(|(i, p)| match p {
+                        SItem::Instr(t) => Some((i, SItem::Name(t.clone()))),
+                        SItem::Name(t) => Some((i, SItem::Instr(t.clone()))),
+                        _ => None,
+                    })
+                    .collect();
+                if !texty.is_empty() && r.chance(1, 3) {
+                    let (i, repl) = texty[r.below(texty.len())].clone();
+                    let mut k = i;
+                    c.replace_point(&mut k, &repl);
+                } else if !floats.is_empty() && r.bool() {
                     let (i, b) = floats[r.below(floats.len())];
                     let f = fl(b);
                     let nb = if f.is_finite() && f != 0.0 { if r.bool() { b + 1 } else { b - 1 } } else { fb(1.5) };
